@@ -145,6 +145,8 @@ UNITS += [
         // the tree blob is in the repository afterwards: it is the parent's very tree, or the index has it, or it was handed to the packer
         /*@tree_blob_available*/ r matches Ok(id) ==> (*parent matches ParentResult::Matched(p) && p == id) || old(self).index.trees().contains(id)
             || final(self).tree_packer.added@ == old(self).tree_packer.added@.push((TREE_SER(old(self).tree.nodes@), id)),
+        // identical content is stored once: the tree is handed to the packer only if the index does not have it yet
+        /*@known_tree_is_not_stored_again*/ old(self).index.trees().contains(tree_id_of(old(self).tree.nodes@)) ==> final(self).tree_packer.added@ == old(self).tree_packer.added@,
         /*@packer_gets_at_most_this_tree*/ final(self).tree_packer.added@ == old(self).tree_packer.added@
             || final(self).tree_packer.added@ == old(self).tree_packer.added@.push((TREE_SER(old(self).tree.nodes@), tree_id_of(old(self).tree.nodes@))),
         /*@backup_tree_frame*/ final(self).tree == old(self).tree && final(self).stack == old(self).stack && final(self).index == old(self).index,
